@@ -1315,7 +1315,8 @@ class JumpBase(FinalInstruction):
         """Clear references"""
         while self._block_map:
             _, block = self._block_map.popitem()
-            block.references.remove(self)
+            # Both targets may be the same block, which holds us only once:
+            block.references.discard(self)
 
     @property
     def targets(self):
